@@ -17,7 +17,7 @@
                                                       `heapless::Vec::into_array` -> `ArrayLength`); `Wire.Codec.array` is
                                                       the same function (Lemmas/WireImpls `arrayDecImpl_eq_codec`)
     impl EtherCrabWireSized for [$ty; N]           -> `arrayBufferLen` (`type Buffer = [u8; N]` although PACKED_LEN = N * size)
-    impl_tuples! unpack_from_slice                 -> `Wire.decTuple` (already line by line, with the slice panic)
+    impl_tuples! unpack_from_slice                 -> `Wire.decTuple` (already line by line; the checked slice `buf.get(PACKED_LEN..)`)
     impl_tuples! pack_to_slice_unchecked           -> `tuplePackWalk` / `tuplePackU` (`split_at_mut(packed_len)` per component,
                                                       then `&orig[0..self.packed_len()]`)
     impl EtherCrabWireWrite for &[u8]              -> `sliceU8PackU`
